@@ -67,6 +67,12 @@ func init() {
 
 func (e diskEngine) Plan(tier string) []Phase {
 	switch e.prop {
+	case "C14":
+		if tier == "thorough" {
+			// the whole token alphabet up to length 5 (19 607 parameters), then the seeded search
+			return []Phase{{Mode: "alphabet", Count: alphabetCount(5)}, {Mode: "random", Share: 1}}
+		}
+		return []Phase{{Mode: "alphabet", Count: alphabetCount(3)}, {Mode: "random", Share: 1}}
 	case "C01":
 		if tier == "thorough" {
 			return []Phase{{Mode: "random", Share: 0.7}, {Mode: "sweep", Share: 0.3}}
@@ -195,11 +201,75 @@ func genFaults(r *Rand, p *Project, light bool) []Fault {
 	return out
 }
 
+// The C14 parameter alphabet: every string over these tokens up to a length bound is tried
+// as the parameter of one INCLUDE (bare and quoted), in a fixed layout that has files and
+// directories behind every token combination that is legal, and decoys outside the project.
+var alphaTokens = []string{"a", ".", "/", "\\", "..", "d", "b.jst"}
+
+func alphabetCount(maxLen int) int {
+	n, p := 0, 1
+	for l := 1; l <= maxLen; l++ {
+		p *= len(alphaTokens)
+		n += p
+	}
+	return n
+}
+
+func alphabetParam(index int) string {
+	l, p := 1, len(alphaTokens)
+	for index >= p {
+		index -= p
+		p *= len(alphaTokens)
+		l++
+	}
+	var sb strings.Builder
+	for i := 0; i < l; i++ {
+		sb.WriteString(alphaTokens[index%len(alphaTokens)])
+		index /= len(alphaTokens)
+	}
+	return sb.String()
+}
+
+func (e diskEngine) genAlphabet(job *Job, c *Case) *Case {
+	prm := alphabetParam(job.Index)
+	line := "INCLUDE " + prm
+	if strings.ContainsAny(prm, "\\") || job.Index%3 == 0 {
+		// quoted form: backslashes must be escaped inside quotes
+		line = "INCLUDE \"" + strings.ReplaceAll(prm, "\\", "\\\\") + "\""
+	}
+	p := &Project{Kind: "light-alphabet", Root: "root.jst", Name: "alphabet:" + prm}
+	file := func(n, s string) { p.Files = append(p.Files, GenFile{Path: n, Data: []byte(s)}) }
+	file("root.jst", "JSIGHT 0.3\n"+line+"\nTAG @after\n")
+	file("a", "TAG @fileA\n")
+	file("b.jst", "TAG @fileB\n")
+	file("d/a", "TAG @fileDA\n")
+	file("d/b.jst", "TAG @fileDB\n")
+	file("d/d/a", "TAG @fileDDA\n")
+	file("ab.jst", "TAG @fileAB\n")
+	file("ad/", "")
+	file("da", "TAG @fileDa2\n")
+	file("aa", "TAG @fileAA\n")
+	file("db.jst", "TAG @fileDB2\n")
+	file("..a", "TAG @dotdotA\n")
+	file("a..", "TAG @aDotdot\n")
+	file(".a", "TAG @dotA\n")
+	file("a.", "TAG @aDot\n")
+	file("...", "TAG @dots\n")
+	file("d/..a", "TAG @dDotdotA\n")
+	file("d/.a", "TAG @dDotA\n")
+	c.Project = p
+	c.Note = "alphabet"
+	return c
+}
+
 func (e diskEngine) Gen(job *Job) *Case {
 	r := NewRand(job.Seed)
 	c := &Case{Prop: e.prop, Seed: job.Seed, Entry: "path"}
 	if job.Mode == "sweep" {
 		return e.genSweep(job, r, c)
+	}
+	if job.Mode == "alphabet" {
+		return e.genAlphabet(job, c)
 	}
 	// flavour weights per property: valid+faults, light, special, corpus
 	w := map[string][4]int{"C01": {40, 20, 20, 20}, "C07": {40, 30, 5, 25}, "C14": {10, 80, 5, 5}}[e.prop]
@@ -226,6 +296,9 @@ func (e diskEngine) Gen(job *Job) *Case {
 	}
 	if !strings.HasPrefix(c.Project.Kind, "special") || r.Chance(1, 4) {
 		c.Faults = genFaults(r, c.Project, light)
+		if job.Tier == "thorough" && r.Chance(1, 4) {
+			c.Faults = append(c.Faults, genFaults(r, c.Project, light)...) // up to 6 faults
+		}
 	}
 	// C07(c): an illegal byte over the first byte of a directive keyword of a light project
 	if light && e.prop == "C07" && c.Project.Kind == "light-graph" && r.Chance(1, 3) {
